@@ -146,6 +146,112 @@ def r05e(ctx, rep):
             [fn.span])
 
 
+CALLABLE = ("Closure", "Lambda", "BuiltInProc", "Continuation")
+CALLABLE_PRED = {"is_closure": "Closure", "is_lambda": "Lambda", "is_builtin_proc": "BuiltInProc", "is_continuation": "Continuation"}
+
+
+def r05g(ctx, rep, rule="R05g"):
+    """a continuation is a procedure wherever a value is classified as one"""
+    from .. import shapes
+    facts = ctx["facts"]
+    rep.rule(rule, "a continuation is a procedure everywhere: every site that rejects a value as not-a-procedure (constructs "
+             "Error::InvalidProcedure on the fall-through edge of a switch over the VCell variant, or behind negative "
+             "is_closure/is_lambda/is_builtin_proc tests) lists all four callable variants — Closure, Lambda, BuiltInProc "
+             "and Continuation — on the accepting side, as the CALL dispatch of run_one does. A classification that omits "
+             "Continuation makes a stored k unusable through that path (apply, and map/for-each built on it).")
+    n = 0
+    for p, f in sorted(facts.fns.items()):
+        if f.impl_trait in DERIVE_TRAITS or not p.startswith("marwood::"):
+            continue
+        for bb, j, s in f.stmts():
+            rv = s["rv"]
+            if not (rv["k"] == "agg" and rv.get("adt") == "marwood::error::Error" and rv.get("variant") == "InvalidProcedure"):
+                continue
+            n += 1
+            key = "%s|%s|#%d" % (rule, f.short, sum(1 for k in rep.obs if k.key.startswith("%s|%s|" % (rule, f.short))) + 1)
+            sws = {sw["bb"]: sw for sw in disc_switches(facts, f, VCELL)}
+            listed, neg = None, set()
+            for sbb, cond, taken, t in shapes.dominating_guards(f, bb):
+                if sbb in sws and taken == "else":
+                    arms = {v for v, tg in sws[sbb]["arms"].items() if tg != sws[sbb]["otherwise"]}
+                    if arms & set(CALLABLE):
+                        listed = arms if listed is None else (listed | arms)
+                sh = shapes.shape(f, cond, 2)
+                for pred, v in CALLABLE_PRED.items():
+                    if ("VCell::%s(" % pred) in sh and taken == 0:
+                        neg.add(v)
+            accepted = (listed or set()) | neg
+            if not accepted:
+                rep.ok(rule, key, "%s raises InvalidProcedure without classifying by variant here" % f.short, [s["loc"]], nontrivial=False)
+                continue
+            missing = [v for v in CALLABLE if v not in accepted]
+            if missing:
+                rep.fail(rule, key, "%s rejects a value as not-a-procedure after accepting only %s: %s %s callable too (the CALL "
+                         "dispatch invokes %s), so %s cannot be used through this path" % (
+                             f.short, ", ".join(sorted(accepted & set(CALLABLE))), ", ".join(missing),
+                             "is" if len(missing) == 1 else "are", "it" if len(missing) == 1 else "them",
+                             "a stored continuation" if "Continuation" in missing else "such a procedure"), [s["loc"]])
+            else:
+                rep.ok(rule, key, "%s: the not-a-procedure exit is taken only after all four callable variants were accepted" % f.short, [s["loc"]])
+    rep.floor(rule, "sites that raise InvalidProcedure", n, 2)
+
+
+SLICE_COPY = ("slice::<impl [T]>::clone_from_slice", "slice::<impl [T]>::copy_from_slice")
+
+
+def r05h(ctx, rep, rule="R05h"):
+    """the saved stack is the whole stack, and it is reinstated whole"""
+    from .. import shapes
+    facts, cg = ctx["facts"], ctx["cg"]
+    rep.rule(rule, "capture copies the live stack from slot 0 up to and including %sp, and restore writes the whole saved "
+             "copy back: in Stack::to_continuation the copied range is 0..sp+1, and on the restore path (the Stack "
+             "functions reachable from Vm::restore_continuation) the source of the slice copy is the entire saved vector "
+             "— no sub-range of it. A partial copy leaves frames of the invoking computation under the resumed one.")
+    cap = need(rep, rule, facts, STACK + "to_continuation")
+    if cap is not None:
+        rng = None
+        for bb, t in cap.calls():
+            c = callee(t) or ""
+            if c.endswith("ops::Index<I>>::index") or c.endswith("std::ops::Index<I>>::index"):
+                rng = shapes.shape(cap, t["args"][1], 4) if len(t["args"]) > 1 else None
+        key = rule + "|capture|range"
+        if rng is None:
+            rep.anchor_lost(rule, "Stack::to_continuation no longer takes a range of self.stack")
+        elif re.fullmatch(r"Range::Range\(c:0,\(Add a1\.sp c:1\)(\.0)?\)", rng) or re.fullmatch(r"RangeInclusive::new\(c:0,a1\.sp\)", rng) \
+                or re.fullmatch(r"RangeToInclusive::RangeToInclusive\(a1\.sp\)", rng) or re.fullmatch(r"RangeTo::RangeTo\(\(Add a1\.sp c:1\)(\.0)?\)", rng):
+            rep.ok(rule, key, "to_continuation copies slots 0..=sp (%s)" % rng, [cap.span])
+        else:
+            rep.fail(rule, key, "Stack::to_continuation copies %s of the live stack: the saved copy must hold every slot from 0 up to "
+                     "and including %%sp, or the resumed computation misses frames (or its top slot)" % rng, [cap.span])
+    res = need(rep, rule, facts, CONT + "restore_continuation")
+    if res is None:
+        return
+    sites = []
+    for p in sorted(cg.reachable_from([res.path])):
+        f = facts.fns.get(p)
+        if f is None or not p.startswith("marwood::vm::stack::"):
+            continue
+        for bb, t in f.calls():
+            c = callee(t) or ""
+            if c.endswith("clone_from_slice") or c.endswith("copy_from_slice"):
+                sites.append((f, bb, t, shapes.shape(f, t["args"][1], 4)))
+            elif c.endswith("Clone>::clone") and "Vec<" in c and "VCell" in (t.get("fnargs") or c):
+                sites.append((f, bb, t, "whole:" + shapes.shape(f, t["args"][0], 4)))
+    if not sites:
+        rep.anchor_lost(rule, "no slice copy found on the restore path of the stack")
+        return
+    for i, (f, bb, t, src) in enumerate(sites):
+        key = "%s|restore|%s|#%d" % (rule, f.short, i + 1)
+        whole = src.startswith("whole:") or re.fullmatch(r"<vec::Vec<T, A> as ops::Deref>::deref\(a\d\.stack\)", src) \
+            or re.search(r"RangeFull", src) or re.search(r"Range(From)?::Range(From)?\(c:0[,)]", src)
+        if whole:
+            rep.ok(rule, key, "%s writes back the entire saved vector (%s)" % (f.short, src), [t.get("loc") or f.span])
+        else:
+            rep.fail(rule, key, "%s restores only part of the saved stack (source %s): slots outside that range keep what the "
+                     "invoking computation left there, so a continuation re-entered from another call chain resumes on the "
+                     "wrong frames and operands" % (f.short, src), [t.get("loc") or f.span])
+
+
 def run(ctx, rep):
     r05a(ctx, rep)
     r05b(ctx, rep)
@@ -154,6 +260,8 @@ def run(ctx, rep):
     twins.twin_agreement(ctx, rep, "R05c", ["Continuation"], "a continuation invoked in tail position must behave as "
                          "one invoked in operand position")
     r05e(ctx, rep)
+    r05g(ctx, rep)
+    r05h(ctx, rep)
     from . import runloop
     runloop.r_stack_monotone(ctx, rep, "R05f")
     # R05d: the collector keeps continuations alive
